@@ -170,9 +170,17 @@ func (t *SchedTracer) modelFork(n string, pos int, id string) (int, bool) {
 	}
 	if t.matchById {
 		if ix, ok := t.lastIds[n][id]; ok {
-			t.forkPos[n][pos] = ix
-			t.forkIx[n][id] = ix
-			return ix, false
+			taken := false
+			for _, other := range t.forkPos[n] {
+				if other == ix {
+					taken = true
+				}
+			}
+			if !taken {
+				t.forkPos[n][pos] = ix
+				t.forkIx[n][id] = ix
+				return ix, false
+			}
 		}
 	}
 	ix := t.nForks[n]
